@@ -1953,7 +1953,7 @@ func vfc12Absorb(part *vfPart, prefix string, out *vfc12Outcome) {
 
 func vfc12DFSCount(env *vfEnv) int {
 	if env.Thorough() {
-		return 24
+		return 32
 	}
 	return 4
 }
@@ -1964,6 +1964,19 @@ func vfc12Case(env *vfEnv, part *vfPart, i int) {
 	if env.Replay != "" {
 		b, err := os.ReadFile(env.Replay)
 		var doc vfc12Replay
+		var cdoc struct {
+			Mode  string `json:"mode"`
+			Trial struct {
+				Trial int `json:"trial"`
+			} `json:"trial"`
+		}
+		if err == nil && vfUnJSON(b, &cdoc) == nil && cdoc.Mode == "cluster" {
+			// same seed-determined kill point; the real-time part of the history is of course not reproduced
+			vfc12ClusterTrial(env, part, cdoc.Trial.Trial)
+			part.Mark("nontrivial", 1)
+			part.Mark("nontrivial", 2)
+			return
+		}
 		if err != nil || vfUnJSON(b, &doc) != nil || doc.Cfg == nil {
 			part.Harness = append(part.Harness, "replay file has no configuration")
 			return
@@ -2074,16 +2087,48 @@ func TestVerif_C12(t *testing.T) {
 		// a schedule is one chain of goroutine hand-offs: more threads per shard only add scheduler and GC overhead on the shared machine
 		runtime.GOMAXPROCS(1)
 	}
-	n := vfc12DFSCount(env) + env.N(12000, 200000)
+	n := vfc12DFSCount(env) + env.N(12000, 400000)
 	shards := vfNumCPU()
 	if shards > 8 {
 		shards = 8 // the wall time is set by the enumerations (one shard each); more shards only load the shared machine
 	}
+	// process-level stage: runs in the parent, next to the shards
+	var cpart *vfPart
+	var cwg sync.WaitGroup
+	if trials := vfc12ClusterTrials(env); env.Shard < 0 && env.Replay == "" && trials > 0 {
+		cpart = vfNewPart()
+		cpart.known = vfLoadKnown(env)
+		cwg.Add(1)
+		go func() {
+			defer cwg.Done()
+			sem := make(chan struct{}, 2) // two clusters (six node processes) at a time
+			var tw sync.WaitGroup
+			for k := 0; k < trials; k++ {
+				tw.Add(1)
+				sem <- struct{}{}
+				go func(k int) {
+					defer tw.Done()
+					vfc12ClusterTrial(env, cpart, k)
+					<-sem
+				}(k)
+			}
+			tw.Wait()
+		}()
+	}
+	if os.Getenv("VERIF_C12_ONLY") == "cluster" {
+		n = 1
+	}
 	part := vfRunSharded(t, env, "TestVerif_C12", n, shards, func(part *vfPart, i int) {
-		vfc12Case(env, part, i)
+		if os.Getenv("VERIF_C12_ONLY") != "cluster" {
+			vfc12Case(env, part, i)
+		}
 	})
 	if part == nil {
 		return
+	}
+	cwg.Wait()
+	if cpart != nil {
+		part.Merge(cpart)
 	}
 	spec := &vfSpec{Prop: "C12", Level: "exploration", NontrivSet: "nontrivial",
 		Rule: "distinct schedules (sequence of scheduler actions: phase starts, request deliveries to the real acceptor handlers, reply deliveries, losses, restarts) in which at least one request reached an acceptor",
@@ -2097,9 +2142,9 @@ func TestVerif_C12(t *testing.T) {
 			"newest log: file index (wrap-around 0xffffffff -> 1) before record offset, computed from the configuration, never from the code's comparison; configurations avoid index distances near 2^31 and the lone file 0xffffffff",
 			"across a restart only the committed number must not decrease (the accepted proposal number is volatile by design: Load seeds it from the committed number); VERIF_C12_STRICT_RESTART_PROPOSAL=1 demands both",
 			"waits are on events (CALL frame arrival, phase return, the proposer's per-reply log call); a 120 s watchdog makes the case inconclusive",
-			"process-level stage (3-process replset, kill -9 of the leader) is not part of this check run",
+			"process-level stage: per trial a real 3-process replset (test binary re-executed in node mode, real TCP on 127.0.0.1, REPLSET CONFIG/ADD over the text protocol), require-ack locks over the binary protocol with 1..4 requests in flight, SIGKILL of the leader after a PRNG-chosen request; then polled: the two survivors agree on exactly one leader and every lock whose SUCCED reached the client is held there (in-package census in node mode); a 150 s watchdog, a node that cannot start or a port clash make the trial inconclusive; no log rotation happens in these short trials",
 		},
-		Floors: []string{"dfs_configurations_exhausted", "wins", "lost_requests", "lost_replies", "restarts", "restarts_with_pending_commit", "proposals_to_newer_member", "vote_ties_by_host", "commit_failures"},
+		Floors: []string{"dfs_configurations_exhausted", "wins", "lost_requests", "lost_replies", "restarts", "restarts_with_pending_commit", "proposals_to_newer_member", "vote_ties_by_host", "commit_failures", "cluster_trials_completed"},
 		ExtraCov: func(p *vfPart, cov map[string]interface{}) {
 			cov["exhaustive"] = map[string]interface{}{"subspace": "3 members x 2 single-round candidates, all delivery orders of requests and replies, no faults", "configurations": p.Counters["dfs_configurations"], "exhausted": p.Counters["dfs_configurations_exhausted"], "executions": p.Counters["dfs_executions"], "distinct_global_states": p.Counters["dfs_distinct_global_states"]}
 			cov["distinct_schedules"] = len(p.Distinct["schedules"])
